@@ -226,7 +226,8 @@ INDEX_GRID = lambda n: [0, 1, n // 2, n - 1, n, -1, -n, -n - 1, n + 2]
 
 def _slices(r, n):
     return r.choice([slice(0, 0), slice(0, 0), slice(0, 1), slice(0, 1), slice(0, 2), slice(1, None), slice(None, None), slice(n, n), slice(1, 3), slice(-1, None),
-                     slice(None, -1), slice(n // 2, n // 2), slice(n // 2, None), slice(-2, -1)])
+                     slice(None, -1), slice(n // 2, n // 2), slice(n // 2, None), slice(-2, -1),
+                     slice(3, 1), slice(n, 0), slice(-1, 0)])     # start > stop: an empty range at `start`, as for a Python list
 
 
 def _ext_slices(r):
@@ -495,6 +496,27 @@ class Generator:
         ops = ['append', 'insert', 'insert', 'pop', 'delint', 'setint', 'setslice', 'delslice', 'extend', 'clear', 'setext', 'delext',
                'move', 'copyinsert', 'iadd', 'remove']
         op = r.choice(ops)
+        if r.random() < 0.04 and not self.syntax_only:
+            # assign the whole list: a deep copy of the same list of another model of this class
+            pool = [x for x in self.corpus.by_class.get(type(m), []) if len(getattr(x, a))]
+            if pool:
+                new = copy.deepcopy(getattr(r.choice(pool), a))
+                ref = list(new)
+
+                kind_before = type(w)
+
+                def lc():
+                    if type(getattr(m, a)) is not kind_before:
+                        return (f'after assigning the whole list, {a} is a {type(getattr(m, a)).__name__}, '
+                                f'no longer a {kind_before.__name__}')
+                    cur = list(getattr(m, a))
+                    if len(cur) != len(ref) or any(x is not y for x, y in zip(cur, ref)):
+                        return f'after assigning the whole list, {a} does not hold the assigned elements'
+                    return None
+                o = Op(f'{k}:assign', f'{path}.{a} = deepcopy(<{a} of another {type(m).__name__}, {len(ref)} elements>)', m, path,
+                       lambda: list(getattr(m, a)), lambda: setattr(m, a, new), attr=a, list_check=lc, donors=ref)
+                o.list_attr = a
+                return o
         return self._list_op(path, m, a, k, w, op, lambda types=None, attached=False: self._pool_item(m, a, types, attached),
                              identity=True)
 
